@@ -15,9 +15,10 @@ Usage: tools/gen_cf_menus.py [--no-compile]
 """
 import json, os, re, subprocess, sys, tempfile
 
-TH = "/verif/coq/theories"
-COQ = "/verif/coq"
-MODELRUN = "/verif/extract/modelrun"
+VERIF = os.path.dirname(os.path.dirname(os.path.abspath(__file__)))      # the tree this script lives in
+TH = os.path.join(VERIF, "coq", "theories")
+COQ = os.path.join(VERIF, "coq")
+MODELRUN = os.path.join(VERIF, "extract", "modelrun")
 
 STATES = [
     ("empty", ""),
@@ -281,8 +282,9 @@ def gen_fault(fa, res13):
         + "\n"
         + klist("known13_D10_half_bound", fam["D10HalfBound"],
                 "D10, pid left HALF-BOUND (pid reference without list line): additional pid for an existing cid,\n"
-                "   persistent failure on the cid list (read / open for append / lock) before the line is\n"
-                "   appended; the roll-back fails on the same file; a retry is rejected")
+                "   persistent failure on the cid list (read / open for append / lock / the append of the line\n"
+                "   itself, e.g. a full disk) so that the line is not appended; the roll-back fails on the same\n"
+                "   file; a retry is rejected")
         + "\n"
         + klist("known13_unclassified", fam["None"], "failures that do not have the D10 shape")
         + "\nDefinition known13 : list known_t :=\n  (known13_D10_bound ++ known13_D10_half_bound ++ known13_unclassified)%list.\n")
